@@ -588,11 +588,16 @@ pub fn run(ctx: &mut Ctx) {
     ];
     ctx.run_prop(&Sub, &case, ctx.tier.pick(500_000, 15_000_000));
     ctx.run_prop(&Sub, &rounding_across_days_case, ctx.tier.pick(100_000, 3_000_000));
+    // the generators above stay three days inside the instant range; start of day / wall-clock resolution / strings on
+    // the first and last representable local days are C02's limits grid (its zoned part), run here as well
+    let lim = crate::props::c02::zoned_limit_cases();
+    ctx.run_enum(&crate::props::c02::LimitSub, lim.len() as u64, &|i| lim[i as usize].clone(), true);
 }
 
 pub fn replay(ctx: &mut Ctx, sub: &str, case: &Value) -> bool {
     match sub {
         "zoned" => ctx.replay_case(&Sub, case),
+        "limits" => ctx.replay_case(&crate::props::c02::LimitSub, case),
         _ => false,
     }
 }
